@@ -192,8 +192,11 @@ def build_reference_part(trees: dict[str, ast.Module]) -> dict:
     bound = set()
     for tree in trees.values():
         bound |= bound_identifiers(tree)
+    from . import structnorm
     return {'__idents__': sorted(ids), '__bound__': sorted(bound), '__stmts__': stm, '__params__': params,
-            '__bodyhash__': bodies, '__src__': srcs}
+            '__bodyhash__': bodies, '__src__': srcs,
+            '__toplevel__': {rel: structnorm.toplevel(tree) for rel, tree in trees.items()},
+            '__attrs__': sorted(structnorm.attribute_spellings(trees.values()))}
 
 
 def body_hash(fn) -> str:
@@ -775,6 +778,14 @@ def apply(files: list[tuple[str, str, ast.Module, str]], R: dict) -> dict:
         for t in trees.values():
             _RenameAll(mp).visit(t)
         info['renamed'] = mp
+    # M
+    info['moved'] = moved_functions(trees, R.get('__funcs__', {}), R.get('__bodyhash__'))
+    # D X T A (structnorm.py): definitions put back where the reference has them, helpers of other modules pulled in,
+    # record classes erased, parameter objects dissolved
+    import os
+    if os.environ.get('AEIC_VERIF_NO_STRUCTNORM') != '1':
+        from . import structnorm
+        info['struct'] = structnorm.apply(files, R, info['moved'])
     # names each file's definitions are referred to by from *other* files (pass H must not drop those definitions)
     from . import prenorm
     refs_by_file = {rel: identifiers(t) for rel, t in trees.items()}
@@ -782,8 +793,6 @@ def apply(files: list[tuple[str, str, ast.Module, str]], R: dict) -> dict:
                              for rel in changed}
     # K
     info['constants_folded'] = fold_new_constants(trees, ref_ids, modnames)
-    # M
-    info['moved'] = moved_functions(trees, R.get('__funcs__', {}), R.get('__bodyhash__'))
     # I
     info['restored_helpers'] = restore_inlined_helpers(trees, R, set(info['moved']))
     return info
